@@ -30,6 +30,10 @@ CHECKS = {
    text="Full product, within the stated catalogs, of ACL entries x fabric placements x accessors x element access declarations x operations x paths, evaluated on the real AccessReq::allow / Accessor::is_endpoint_accessible and compared with an independent reference written from the property text.",
    note="aux_acl_enabled=false; identifier values outside the catalogs behave like the catalog representatives (renaming symmetry); at most two ACL entries installed at a time.",
    tech="bounded exhaustive configuration/input enumeration against a reference model"),
+ "C06": dict(cat="exploration",
+   text="A real device (Matter + InteractionModel + responder) over a fully parameterised, instrumented data model, and a client node with pre-established CASE sessions on two fabrics and a PASE session that sends raw Interaction Model requests. Full product, within the catalogs, of 2 node compositions x access-control configurations (privilege none / view / operate / manage / admin x target shape all / one endpoint / one cluster / endpoint+cluster / two targets) x 3 requesters x operations: reads of every path over endpoint {*,0,1,2,absent} x cluster {*,A,B,absent} x attribute {*, five access classes, global, absent}, fabric-filtered or not, lists of two paths in both orders; writes and invocations of every concrete and endpoint-wildcard path x {untimed, timed, window expired, timed flag without window, window without flag}; multi-element requests. Oracle: a reference derived from the node composition, the ACL and the access declarations - the data returned, the writes / invocations that reach the handlers, the fabric context handed to the handlers and the statuses of concrete paths.",
+   note="Events are not part of this check; the access-check function over the full ACL space is C05's subject; where several reasons apply to a refused concrete path any of the corresponding statuses is accepted.",
+   tech="bounded exhaustive configuration / input enumeration on the real two-node system against a reference model"),
  "C09": dict(cat="model_checking",
    text="Two real Matter nodes with a pre-established secure session under a virtual clock and an adversarial datagram network: every schedule with at most k non-default adversary decisions (drop, duplicate, reorder, timer-first) is executed to completion, from the FIFO policy and from 'drop the first n datagrams of one direction' policies (n up to all), for CASE and PASE sessions and three receiver behaviours; oracles on every execution: application sees a duplicate-free in-order prefix, send is Ok only if delivered, fails with TxTimeout when everything is lost, succeeds when a transmission and the acknowledgement got through, back-off respected, duplicates re-acknowledged, sender never hangs.",
    note="Latency >= 1 ms, adversary acts at quiescent points; datagrams attributed to messages by size class and plain-header counter; two messages on one exchange per execution.",
